@@ -5,6 +5,7 @@ import (
 	"sort"
 	"strings"
 	"sync"
+	"sync/atomic"
 
 	"verif/ev"
 	"verif/itp"
@@ -441,21 +442,16 @@ func C06(run *ev.Run, tier string) map[string]interface{} {
 	}
 	c06Compound(leaves, func(c c06case) { cases = append(cases, c) })
 	// the same expressions with other white space between the tokens (tab, newline, carriage
-	// return + newline, two blanks): the truth value does not depend on it
-	{
-		n := len(cases)
-		for i := 0; i < n; i++ {
-			if !thorough && !strings.HasPrefix(cases[i].form, "compound") && i%7 != 0 {
-				continue // quick: every compound tree and every seventh atom
-			}
-			for _, ws := range []string{"\t", "\n", "\r\n", "  "} {
-				c := cases[i]
-				c.form += "|ws=" + ws
-				cases = append(cases, c)
-			}
+	// return + newline, two blanks): the truth value does not depend on it. Every compound tree of
+	// up to three leaves and every seventh other case, streamed to the workers (not materialised).
+	wsVariant := func(i int, c c06case) bool {
+		if strings.HasPrefix(c.form, "compound|leaves=") {
+			return c.form < "compound|leaves=4"
 		}
+		return i%7 == 0
 	}
 
+	var nEval int64
 	var mu sync.Mutex
 	hist := map[string]int{}
 	forms := map[string]bool{}
@@ -475,6 +471,7 @@ func C06(run *ev.Run, tier string) map[string]interface{} {
 					c.form = c.form[:i] // (signatures do not distinguish the white space)
 				}
 				ev.SetInFlight(w, "Language.Match "+expr+" item "+c.item.CanonText()+" values "+fmt.Sprint(c.values))
+				atomic.AddInt64(&nEval, 1)
 				mask := c.cond.Eval(rx.Env{Item: c.item, Names: c.names, Values: c.values})
 				before := c.item.CanonText()
 				out, passed := itp.Match(expr, c.item, c.names, c.values)
@@ -520,8 +517,15 @@ func C06(run *ev.Run, tier string) map[string]interface{} {
 		rounds = 3
 	}
 	for r := 0; r < rounds; r++ {
-		for _, c := range cases {
+		for i, c := range cases {
 			ch <- c
+			if wsVariant(i, c) {
+				for _, ws := range []string{"\t", "\n", "\r\n", "  "} {
+					v := c
+					v.form += "|ws=" + ws
+					ch <- v
+				}
+			}
 		}
 	}
 	close(ch)
@@ -535,10 +539,10 @@ func C06(run *ev.Run, tier string) map[string]interface{} {
 		samples = append(samples, "(none)")
 	}
 	return map[string]interface{}{
-		"evaluations":         len(cases) * rounds,
+		"evaluations":         atomic.LoadInt64(&nEval),
 		"distinct_nontrivial": len(distinct),
 		"distinct_forms":      len(forms),
-		"rule":                "every atomic condition form (6 comparators over path/value, value/path, path/path, value/value; BETWEEN; IN with 1-3 members; attribute_exists, attribute_not_exists, attribute_type, begins_with, contains, size) x every path spelling (a, #a, azAZ_09, m.x, m.#x, #d naming the attribute \"d.e\" next to a map d, m.#k naming the key \"x.y\", l[0], l[1], m.l[0].x and never-resolving paths) x every typing of the operands with the ten types and absence (two or three values per type), plus every boolean tree with up to N leaves over NOT/AND/OR/parentheses printed with minimal parentheses; the compound trees and every seventh atom (thorough: all) once more with tab / newline / CR LF / two blanks as white space; a case is distinct by (expression text, item, bindings); evaluated directly on interpreter.Language.Match against the reference three-valued evaluator with acceptance sets",
+		"rule":                "every atomic condition form (6 comparators over path/value, value/path, path/path, value/value; BETWEEN; IN with 1-3 members; attribute_exists, attribute_not_exists, attribute_type, begins_with, contains, size) x every path spelling (a, #a, azAZ_09, m.x, m.#x, #d naming the attribute \"d.e\" next to a map d, m.#k naming the key \"x.y\", l[0], l[1], m.l[0].x and never-resolving paths) x every typing of the operands with the ten types and absence (two or three values per type), plus every boolean tree with up to N leaves over NOT/AND/OR/parentheses printed with minimal parentheses; the compound trees of up to three leaves and every seventh other case once more with tab / newline / CR LF / two blanks as white space; a case is distinct by (expression text, item, bindings); evaluated directly on interpreter.Language.Match against the reference three-valued evaluator with acceptance sets",
 		"samples":             samples,
 		"exhaustive":          true,
 		"outcome_histogram":   hist,
